@@ -101,7 +101,7 @@ def gen_nodes(r: common.Rng, profiles, bad: str | None):
     return nodes
 
 
-POLICIES = ["fixed"] * 6 + ["poisson"] * 4 + ["gamma"] * 4 + ["closed_loop"] * 5 + ["periodic"]
+POLICIES = ["fixed"] * 5 + ["poisson"] * 4 + ["gamma"] * 4 + ["closed_loop"] * 5 + ["periodic"] * 4
 
 
 def gen_graph(r: common.Rng, gi: int, profiles, bad: str | None):
@@ -176,7 +176,7 @@ BAD_KINDS = [
 ]
 
 
-def gen_flags(r: common.Rng):
+def gen_flags(r: common.Rng, graphs=()):
     f = {}
     if chance(r, 0.12):
         f["period"] = r.randint(1, 5000)
@@ -197,6 +197,27 @@ def gen_flags(r: common.Rng):
     if chance(r, 0.2):
         f["max_deadline"] = r.randint(0, 600)
     f["seed"] = r.randint(0, 1000)
+    # --loop_timeout is the horizon of the periodic policy: keep every periodic
+    # graph of the description at <= ~12 releases (np.arange lengths stay small)
+    hs = []
+    for g in graphs:
+        if g.get("policy") == "periodic":
+            per = f.get("period") or g.get("period")
+            if isinstance(per, int) and per > 0:
+                hs.append((g.get("start") or 0) + r.randint(0, 12) * per + r.randint(-1, 1))
+            else:
+                hs.append((g.get("start") or 0) + r.randint(-5, 50))
+    if hs:
+        f["loop_timeout"] = min(hs)
+        # any periodic graph that would still release too often (other start, negative
+        # period walking down to the horizon) is moved to k periods before the horizon
+        for g in graphs:
+            if g.get("policy") == "periodic":
+                per = f.get("period") or g.get("period")
+                if isinstance(per, int) and per != 0 and len(range(g.get("start") or 0, f["loop_timeout"], per)) > 13:
+                    g["start"] = f["loop_timeout"] - per * r.randint(0, 12)
+    elif chance(r, 0.2):
+        f["loop_timeout"] = r.randint(0, 10**6)
     return f
 
 
@@ -212,7 +233,7 @@ def gen_batches(r: common.Rng, desc, flags, np_seed: int):
     repl = max(1, flags.get("repl", 1))
     for gd in desc.get("graphs") or []:
         pol = gd.get("policy")
-        n = gd.get("invocations")
+        n = flags.get("n") or gd.get("invocations")
         if pol not in ("poisson", "gamma") or not isinstance(n, int) or n <= 0:
             continue
         rate = flags.get("rate") or gd.get("rate") or 0.01
@@ -254,7 +275,7 @@ def gen_workload_case(r: common.Rng, idx: int, bad_rate: float = 0.3):
         desc["profiles"] = None
     elif bad == "no-graphs-key":
         desc["graphs"] = None
-    flags = gen_flags(r)
+    flags = gen_flags(r, graphs)
     ext = r.choice(["json", "json", "json", "yaml", "yaml", "yaml", "yml", "JSON", "YAML"])
     if bad == "ext":
         ext = r.choice(["txt", "toml"])
@@ -265,7 +286,7 @@ def gen_workload_case(r: common.Rng, idx: int, bad_rate: float = 0.3):
         "desc": desc,
         "flags": flags,
         "ext": ext,
-        "fuzz": gen_fuzz_tape(r, 160),
+        "fuzz": gen_fuzz_tape(r, 340),
         "batches": gen_batches(r, desc, flags, r.getrandbits(32)),
         "history_plan": [[r.randrange(64), r.randrange(64), r.randint(0, 200000)] for _ in range(r.randint(0, 30))],
     }
@@ -439,4 +460,5 @@ def model_flags(fl):
         "repl": fl.get("repl", 1),
         "min_deadline": fl.get("min_deadline", 0),
         "max_deadline": fl.get("max_deadline", MAXSIZE),
+        "loop_timeout": fl.get("loop_timeout", MAXSIZE),
     }
